@@ -136,7 +136,7 @@ theorem hom_run_pattern (hsq : IsSqrt (SqrtFn.sq : K → K)) (p : Problem K) (hr
     · cases hcase
     obtain ⟨i, hi, rfl⟩ := List.mem_map.1 hr
     rw [List.mem_range] at hi
-    have hrng := (hrowsOK (off + i) (by omega)).2 e he
+    have hrng := hrowsOK (off + i) (by omega) e he
     rw [hec] at hrng
     have := g5 s (c - 1) hs (by omega)
     rw [show c - 1 + 1 = c by omega] at this
